@@ -241,6 +241,12 @@ Definition active_of (f : file) (fo : fobjs) (reg : list (Z * list ktable)) : ta
               | t :: _ => [(fst il, map (lentry_of f fo (fst il)) (kt_entries t))]
               end) reg.
 
+(* ---------- object-table entries that matter ---------- *)
+Definition is_ktab (e : oentry) : bool := negb (o_alloc e =? 0) && (o_type e =? 2).
+Definition is_fobj (e : oentry) : bool := negb (o_alloc e =? 0) && (o_type e =? 3).
+(* file_objects after the object table has been walked (later entries override earlier ones) *)
+Definition fobjs_of (oes : list oentry) : fobjs := rev (map (fun e => (o_off e, o_size e)) (filter is_fobj oes)).
+
 (* ---------- trees as dictionaries: equal up to the order of siblings ---------- *)
 Inductive tree_equiv : tree -> tree -> Prop :=
 | te_leaf v : tree_equiv (Leaf v) (Leaf v)
